@@ -351,6 +351,8 @@ class CallMixin:
             xk = self.kind_of(x)
             if isinstance(x, (ListV, DictV, TupleV, SetV, StrV)):
                 return kind_is(x.kind, kn), kn  # type: ignore
+            if xk is not None and getattr(x, "exact", False):
+                return (kind_is(xk, kn) or kn == "object"), kn
             if xk is not None:
                 if kind_is(xk, kn):
                     return True, kn
